@@ -40,36 +40,22 @@ Theorem C18_read_after_sync : forall l, read_after_sync_statement l.
 Proof. exact read_after_sync. Qed.
 Print Assumptions C18_read_after_sync.
 
-(* freshness over all interleavings of two follower reads with an advancing leader.  Full statement: *)
-Definition C18_read_fresh_full_statement : Prop :=
-  forall l0 f0 ls, fresh (run_code (i_init l0 f0) ls) = true.
+(* freshness over all interleavings of two follower reads with an advancing leader.  The model is the syncer with
+   installRevision (mutex + synced: a fetched revision is installed only if it is larger than every revision
+   installed before) and a single flight whose joiners fetch again when the flight had started before they arrived.
+   Full strength, every schedule: each read scans at a revision >= the leader's committed revision when it began
+   (the shared flight was finding C18-F3, the plain store finding C18-F1, before their fix: commits) *)
+Theorem C18_read_fresh : forall l0 f0 ls, fresh (run_code (i_init l0 f0) ls) = true.
+Proof. exact read_fresh. Qed.
+Print Assumptions C18_read_fresh.
 
-(* refuted by the faithful model (tso.Commit is a plain store: finding C18-F1) *)
-Theorem C18_read_fresh_full_refuted : exists l0 f0 ls, fresh (run_code (i_init l0 f0) ls) = false.
-Proof. exact read_fresh_refuted. Qed.
-Print Assumptions C18_read_fresh_full_refuted.
+(* the invariant behind it, for every schedule: synced only grows, the backend's read revision equals it once a
+   fetched revision has been installed, at most one thread is inside SetCurrentRevision *)
+Theorem C18_install_invariant : forall refetch share l0 f0 ls, sinv (run refetch share (i_init l0 f0) ls).
+Proof. exact run_inv. Qed.
+Print Assumptions C18_install_invariant.
 
-(* the complement of the two findings, on the code as it is, for every schedule: a read that fetched
-   for itself is fresh as long as no SetCurrentRevision lowered the follower's revision *)
-Theorem C18_read_fresh_except_findings : forall l0 f0 ls t,
-  let s := run_code (i_init l0 f0) ls in
-  lowering_set s = false -> t_joined (get_thr s t) = false -> thr_fresh (get_thr s t) = true.
-Proof. exact read_fresh_except. Qed.
-Print Assumptions C18_read_fresh_except_findings.
-
-(* the repair (monotone set + a read never adopts a fetch that began before it) suffices, on every
-   schedule; each half alone does not *)
-Theorem C18_read_fresh_repaired : forall l0 f0 ls, fresh (run true false (i_init l0 f0) ls) = true.
-Proof. exact read_fresh_repaired. Qed.
-Print Assumptions C18_read_fresh_repaired.
-Theorem C18_monotone_set_alone_refuted : exists ls, fresh (run true true (i_init 10 5) ls) = false.
-Proof. exact monotone_set_alone_refuted. Qed.
-Print Assumptions C18_monotone_set_alone_refuted.
-Theorem C18_private_fetch_alone_refuted : exists ls, fresh (run false false (i_init 10 5) ls) = false.
-Proof. exact private_fetch_alone_refuted. Qed.
-Print Assumptions C18_private_fetch_alone_refuted.
-
-(* the executable oracle accepts what the model produces (role rows: always; schedules: except exactly on the two findings' signatures) *)
+(* the executable oracle accepts what the model produces *)
 Theorem C18_oracle_sound_roles : forall k r proxy l obs,
   c18_check (RoleCase k r proxy l obs) = true -> c18_oracle (RoleCase k r proxy l obs) = None.
 Proof. exact c18_role_sound. Qed.
@@ -77,11 +63,7 @@ Print Assumptions C18_oracle_sound_roles.
 
 Theorem C18_oracle_sound_schedules : forall l0 f0 ls a b sets,
   c18_check (SchedCase l0 f0 ls a b sets) = true ->
-  match c18_oracle (SchedCase l0 f0 ls a b sets) with
-  | None => True
-  | Some c => (c = F_set_race /\ lowering_set (run_code (i_init l0 f0) ls) = true)
-              \/ (c = F_shared_flight /\ some_joined (run_code (i_init l0 f0) ls) = true)
-  end.
+  c18_oracle (SchedCase l0 f0 ls a b sets) = None.
 Proof. exact c18_sched_sound. Qed.
 Print Assumptions C18_oracle_sound_schedules.
 
@@ -130,19 +112,20 @@ Proof. exact c18_takeover_sound. Qed.
 Print Assumptions C18_oracle_sound_takeover.
 
 (* non-vacuity *)
-Example C18_set_race_witness :
+(* the schedule of the former finding C18-F1: A's late install of 10 is dropped, both reads scan at 12 *)
+Example C18_set_race_harmless :
   let s := run_code (i_init 10 5) w_set_race in
-  obs_of_thr (i_b s) = TObs true 12 10 false /\ lowering_set s = true /\ some_joined s = false.
-Proof. exact set_race_witness. Qed.
-Example C18_shared_flight_witness :
-  let s := run_code (i_init 10 5) w_shared_flight in
-  obs_of_thr (i_b s) = TObs true 12 10 true /\ lowering_set s = false.
-Proof. exact shared_flight_witness. Qed.
-(* the hypotheses of the except-theorem hold on a schedule where both reads complete concurrently *)
-Example C18_except_inhabited :
-  let s := run_code (i_init 10 5) [LStep TA; LStep TB; LStep TA; LAdv; LStep TA; LStep TA; LStep TB; LStep TB; LStep TB; LStep TA; LStep TA; LStep TB; LStep TB] in
-  lowering_set s = false /\ some_joined s = false /\ obs_of_thr (i_a s) = TObs true 10 11 false /\ obs_of_thr (i_b s) = TObs true 10 11 false.
-Proof. vm_compute. repeat split. Qed.
+  obs_of_thr (i_a s) = TObs true 10 12 false /\ obs_of_thr (i_b s) = TObs true 12 12 false
+  /\ map (fun x => match x with (_, before, v) => (before, v) end) (i_sets s) = [(5, 12)].
+Proof. exact set_race_harmless. Qed.
+(* the schedule of the former finding C18-F3: B joins A's flight, waits for it and fetches again: both scan at 12;
+   without the re-fetch B was served at 10 *)
+Example C18_shared_flight_refetched :
+  let s := run_code (i_init 10 5) [LStep TA; LStep TA; LStep TA; LAdv; LAdv; LStep TB; LStep TB; LStep TA; LStep TA; LStep TB; LStep TB; LStep TB; LStep TA; LStep TB; LStep TB; LStep TA; LStep TB] in
+  obs_of_thr (i_a s) = TObs true 10 12 false /\ obs_of_thr (i_b s) = TObs true 12 12 false.
+Proof. exact shared_flight_refetched. Qed.
+Example C18_shared_flight_was_stale : fresh (run false true (i_init 10 5) w_shared_flight) = false.
+Proof. exact shared_flight_was_stale. Qed.
 Example C18_garbage_now_fails : outcome_of (roles_effects ERangeList Follower false Garbage200) = Error.
 Proof. reflexivity. Qed.
 Example C18_follower_read_ok : outcome_of (roles_effects ERangeList Follower false (ReachOk 50)) = ServeLocalAt 50.
